@@ -1,0 +1,46 @@
+"""Verification hooks (off by default).
+
+Everything in this module is a no-op unless the environment variable ``REX_VERIF=1`` is set *and* a
+callback has been registered with :func:`set_callback`. The hooks are used by an external runtime-monitoring
+harness to observe (and perturb) the thread schedule of the asynchronous runtime. They never change what rex
+computes.
+"""
+
+import functools
+import os
+from typing import Any, Callable, Optional
+
+ENABLED = os.environ.get("REX_VERIF") == "1"
+
+_callback: Optional[Callable[[str, dict], None]] = None
+
+
+def set_callback(cb: Optional[Callable[[str, dict], None]]) -> None:
+    """Register (or clear with None) the callback that receives every hook point as ``cb(name, ctx)``."""
+    global _callback
+    _callback = cb
+
+
+def point(name: str, **ctx: Any) -> None:
+    """A named observation point. Returns immediately when the guard is off or no callback is registered."""
+    if not ENABLED:
+        return
+    cb = _callback
+    if cb is not None:
+        cb(name, ctx)
+
+
+def wrap_task(owner: str, fn: Callable) -> Callable:
+    """Wrap a task submitted to a worker so that its start and end are reported. Identity when disabled."""
+    if not ENABLED or _callback is None:
+        return fn
+
+    @functools.wraps(fn)
+    def _task(*args, **kwargs):
+        point("task_start", owner=owner, fn=getattr(fn, "__name__", "?"))
+        try:
+            return fn(*args, **kwargs)
+        finally:
+            point("task_end", owner=owner, fn=getattr(fn, "__name__", "?"))
+
+    return _task
